@@ -6,15 +6,40 @@
 //!                  parsers; every accepted URI gets the unary oracles
 //!                  (faithful text, accessors, parent).
 //!  2. bytes      : every octet 0..=255 substituted/inserted at every position
-//!                  of two seed URIs, and as join argument.
+//!                  of four seed URIs, and as join argument.
 //!  3. rsync.pairs / https.pairs : all ordered pairs of the accepted sets up
 //!                  to a stated tail length.
 //!  4. rsync.join / https.join   : all (u, p), p in SIGMA^{<=K}.
-//!  5. rsync.triples / https.triples : all triples of a denser small domain.
+//!  5. rsync.triples / https.triples : all triples of a denser small domain
+//!                  (relation matrices computed by n^2 real calls, then every
+//!                  triple with a true first premise is inspected).
 //!
 //! The reference model works on the *text* only (documented grammar, split on
 //! '/', ASCII lower-casing of scheme and authority); it never calls the
 //! accessor, comparison or path functions of the library.
+//!
+//! What is demanded, clause by clause of the property:
+//!  * accepted => text unchanged, accessors are the model's split of the text,
+//!    only permitted characters, rsync: no empty/dot segments (`parse.*`,
+//!    `accessors`). A parser that is *stricter* than the grammar (it rejects
+//!    '@' and authorities "." / "..") is counted, not reported.
+//!  * == <=> (scheme+authority lower-cased equal, rest equal); symmetric,
+//!    reflexive, transitive; == => equal hash (`eq.*`).
+//!  * join/parent results: text passes the model, accessors consistent with the
+//!    text, from_slice(text) == result with the same authority (`*.valid`).
+//!  * parent(u).is_parent_of(u); base.is_parent_of(join(base,p)) for p != ""
+//!    (`parent.is_parent`, `join.beneath`); for https, which has no
+//!    is_parent_of, the same relation on the text.
+//!  * relative_to == Some("") <=> equal up to one trailing slash
+//!    (`relative_to.empty`); Some(p), p != "" => other.join(p) == self
+//!    (`relative_to.join`).
+//!  * is_parent_of irreflexive, transitive, unchanged when either side is
+//!    replaced by an == URI, and (because join must land beneath its base and
+//!    a non-empty relative path must join back) equivalent to "lies strictly
+//!    beneath under this equality" (`is_parent_of.*`).
+//!  * `join.parent` (parent(join(u, one segment)) is u up to one trailing slash)
+//!    comes from DESIGN.md / the doc comment of `parent`, not literally from the
+//!    property text.
 
 use std::collections::hash_map::DefaultHasher;
 use std::collections::BTreeMap;
